@@ -19,7 +19,7 @@ struct ItemResult {
     try_sites: Vec<(String, u32)>,
     vios: Vec<Vio>,
     nondet: Vec<String>,
-    crashed: Vec<String>,
+    crashed: Vec<Crash>,
     skipped: bool,
 }
 
@@ -55,6 +55,16 @@ fn load_known() -> Vec<Known> {
         });
     }
     v
+}
+
+/// does property `q`'s plan (same tier) explore this scenario instance?
+fn covered_by(q: &str, scenario: &str, cfg: &crate::h::Cfg, quick: bool) -> bool {
+    use std::sync::OnceLock;
+    static CACHE: OnceLock<Mutex<BTreeMap<(String, bool), BTreeSet<(String, String)>>>> = OnceLock::new();
+    let cache = CACHE.get_or_init(|| Mutex::new(BTreeMap::new()));
+    let mut g = cache.lock().unwrap();
+    let set = g.entry((q.to_string(), quick)).or_insert_with(|| props::plan(q).into_iter().filter(|i| !quick || i.quick.is_some()).map(|i| (i.scenario.to_string(), i.cfg.to_string())).collect());
+    set.contains(&(scenario.to_string(), cfg.to_string()))
 }
 
 fn run_item(exe: &str, item: &Item, bound: usize, workers: usize, seed: u64, deadline: Instant) -> ItemResult {
@@ -202,7 +212,13 @@ pub fn check_main(args: &[String], exe_normal: &str) -> i32 {
     let has_owned_violation = {
         let prop = prop.clone();
         move |r: &ItemResult| -> bool {
-            !r.crashed.is_empty() || r.vios.iter().any(|v| v.text.split(" || ").any(|p| props::owners(r.item.scenario, p).contains(&prop.as_str()) || props::class_of(p) == "NONDETERMINISM"))
+            !r.crashed.is_empty()
+                || r.vios.iter().any(|v| {
+                    v.text.split(" || ").any(|p| {
+                        let os = props::owners(r.item.scenario, p);
+                        os.contains(&prop.as_str()) || props::class_of(p) == "NONDETERMINISM" || !os.iter().any(|q| covered_by(q, r.item.scenario, &r.item.cfg, quick))
+                    })
+                })
         }
     };
     // large instances one after the other with all workers
@@ -267,17 +283,33 @@ pub fn check_main(args: &[String], exe_normal: &str) -> i32 {
         for n in &r.nondet {
             machinery_errors.push(format!("NONDETERMINISM in {} [{}]: {}", r.item.scenario, r.item.cfg.to_string(), n));
         }
+        let mut crash_reported = false;
         for c in &r.crashed {
-            if prop == "C14" {
-                // a worker of the sanitizer build died: AddressSanitizer report or fatal signal
-                let path = format!("{}/replays/C14-{}-crash.txt", VERIF_DIR, r.item.scenario);
-                let _ = std::fs::create_dir_all(format!("{}/replays", VERIF_DIR));
-                let _ = std::fs::write(&path, format!("scenario {} cfg {}\n{}\n", r.item.scenario, r.item.cfg.to_string(), c));
-                println!("VIOLATION property=C14 replay={}", path);
-                println!("  sanitizer-build worker died: {}", c);
-                violations_reported += 1;
-            } else {
-                machinery_errors.push(format!("worker crash in {} [{}]: {}", r.item.scenario, r.item.cfg.to_string(), c));
+            // the worker process died while running the subject: a verdict only if the death is reproduced, twice, by replaying the
+            // announced prefix in fresh processes (then it is a crash of the subject under that schedule: memory error / abort)
+            let spec = WorkerSpec { scenario: r.item.scenario.to_string(), cfg: r.item.cfg.clone(), bound: r.bound_target, elide: true, try_sites: r.try_sites.clone(), seed };
+            let confirmed = match &c.prefix {
+                Some(p) => match (replay_dies(&exe, &spec, p), replay_dies(&exe, &spec, p)) {
+                    (Some(a), Some(_)) => Some(a),
+                    _ => None,
+                },
+                None => None,
+            };
+            match confirmed {
+                Some(report) => {
+                    if crash_reported {
+                        continue;
+                    }
+                    crash_reported = true;
+                    let _ = std::fs::create_dir_all(format!("{}/replays", VERIF_DIR));
+                    let v = Vio { schedule: c.prefix.clone().unwrap(), text: format!("CRASH the process died while executing the subject under this schedule (memory error or abort): {}", report.lines().take(3).collect::<Vec<_>>().join(" / ")) };
+                    let steps: Vec<String> = report.lines().map(|l| l.to_string()).collect();
+                    let path = write_replay(&prop, r, &v, &[v.text.clone()], &steps);
+                    println!("VIOLATION property={} replay={}", prop, path);
+                    println!("  scenario {} [{}]: {}", r.item.scenario, r.item.cfg.to_string(), v.text.chars().take(300).collect::<String>());
+                    violations_reported += 1;
+                }
+                None => machinery_errors.push(format!("worker crash in {} [{}] not reproduced by replay: {}", r.item.scenario, r.item.cfg.to_string(), c.desc)),
             }
         }
         let mut reported_here = 0;
@@ -287,7 +319,15 @@ pub fn check_main(args: &[String], exe_normal: &str) -> i32 {
                 machinery_errors.push(format!("NONDETERMINISM while replaying a prefix in {} [{}]: {}", r.item.scenario, r.item.cfg.to_string(), v.text));
                 continue;
             }
-            let owned: Vec<String> = parts.iter().filter(|p| props::owners(r.item.scenario, p).contains(&prop.as_str())).map(|s| s.to_string()).collect();
+            let owned: Vec<String> = parts
+                .iter()
+                .filter(|p| {
+                    let os = props::owners(r.item.scenario, p);
+                    // own class, or a class whose owners do not explore this scenario instance themselves (nothing is dropped silently)
+                    os.contains(&prop.as_str()) || !os.iter().any(|q| covered_by(q, r.item.scenario, &r.item.cfg, quick))
+                })
+                .map(|s| s.to_string())
+                .collect();
             if owned.is_empty() {
                 for p in &parts {
                     *notes.entry(format!("{} in {} (attributed to {:?})", props::class_of(p), r.item.scenario, props::owners(r.item.scenario, p))).or_default() += 1;
